@@ -45,6 +45,10 @@ impl Default for PushOpts {
 impl PushOpts {
     pub fn args(&self) -> Vec<String> {
         let mut a = ws::base_args(self.threads);
+        if self.extra.iter().any(|x| x == "--color") {
+            // the option may be given only once
+            a.retain(|x| x != "--color" && x != "never");
+        }
         if !self.backup.is_empty() {
             a.push("--backup".into());
             a.push(self.backup.clone());
